@@ -571,3 +571,33 @@ func init() {
 		return IntConst(v)
 	})
 }
+
+func init() {
+	PC := "(*github.com/cosmos/cosmos-sdk/codec.ProtoCodec)."
+	for _, n := range []string{"MustMarshal", "MustMarshalJSON", "MustMarshalLengthPrefixed"} {
+		reg(PC+n, func(in *Interp, fn *ssa.Function, a []Value, pos token.Pos) Value { return in.codecMarshal(a[1], pos) })
+	}
+	for _, n := range []string{"Marshal", "MarshalJSON", "MarshalLengthPrefixed"} {
+		reg(PC+n, func(in *Interp, fn *ssa.Function, a []Value, pos token.Pos) Value {
+			return tup(in.codecMarshal(a[1], pos), Iface{})
+		})
+	}
+	for _, n := range []string{"MustUnmarshal", "MustUnmarshalJSON", "MustUnmarshalLengthPrefixed"} {
+		reg(PC+n, func(in *Interp, fn *ssa.Function, a []Value, pos token.Pos) Value {
+			in.codecUnmarshal(a[1], a[2], pos)
+			return nil
+		})
+	}
+	for _, n := range []string{"Unmarshal", "UnmarshalJSON", "UnmarshalLengthPrefixed"} {
+		reg(PC+n, func(in *Interp, fn *ssa.Function, a []Value, pos token.Pos) Value {
+			// decoding into a different message type than was encoded fails (JSON/proto mismatch)
+			if b, ok, _ := blobOf(a[1]); ok {
+				if iv, ok2 := a[2].(Iface); ok2 && iv.T != nil && b.Typ != "" && b.Typ != iv.T.String() && b.Typ != "any" {
+					return errIface(&ErrVal{Msg: "cannot unmarshal " + b.Typ + " into " + iv.T.String()})
+				}
+			}
+			in.codecUnmarshal(a[1], a[2], pos)
+			return Iface{}
+		})
+	}
+}
